@@ -1509,9 +1509,22 @@ func chanName(ch ssa.Value) string {
 			st := fa.X.Type().Underlying().(*types.Pointer).Elem().Underlying().(*types.Struct)
 			return st.Field(fa.Field).Name()
 		}
+		// a captured or local channel variable: its source name
+		switch x := c.X.(type) {
+		case *ssa.FreeVar:
+			return x.Name()
+		case *ssa.Alloc:
+			if x.Comment != "" {
+				return x.Comment
+			}
+		}
 	case *ssa.Field:
 		st := c.X.Type().Underlying().(*types.Struct)
 		return st.Field(c.Field).Name()
+	case *ssa.Parameter:
+		return c.Name()
+	case *ssa.FreeVar:
+		return c.Name()
 	}
 	return ch.Name()
 }
